@@ -13,6 +13,11 @@
 // limitations under the License.
 
 use percent_encoding::{percent_decode_str, utf8_percent_encode, AsciiSet, NON_ALPHANUMERIC};
+#[cfg(kani)]
+use crate::verif_shim::HashSet;
+#[cfg(kani)]
+use std::collections::HashMap;
+#[cfg(not(kani))]
 use std::collections::{HashMap, HashSet};
 use std::error::Error;
 use std::fmt::{Display, Formatter, Write};
@@ -510,3 +515,7 @@ impl ParseState {
         }
     }
 }
+
+#[cfg(kani)]
+#[path = "/verif/kani/swimos_route/route_pattern.rs"]
+mod verif_kani;
